@@ -52,7 +52,10 @@ struct Case
             a.numvec("priorLens", priorLens);
             a.num("priorRaw", priorRaw);
         }
+        a.optionalNum("relabel", relabel);
     }
+    uint8_t relabel{0};  // mode 3: after the payload was handed to the packet its type is changed in place through the mutable
+                         // Packet::getPayload(): 1 = payload type byte (setRawPayloadType), 2 = message type (setMessageType)
 };
 
 static Bytes background(uint8_t bg, uint32_t seed, size_t n)
@@ -269,12 +272,34 @@ static Verdict runPacketHeaders(const Case& c, Info& info)
     p.setDeviceId(c.dev);
     p.setStreamId(c.stream);
     p.setSequenceCounter(c.seq);
+    uint8_t mt = c.packet.messageType();
+    uint8_t ptByte = c.packet.payloadTypeByte();
     uint8_t cmp[8], msg[16];
+    if (c.relabel)
+    {
+        // the headers are read once before (whatever a packet remembers about its payload's type must follow the payload)
+        p.getRawCmpHeader(cmp);
+        p.getRawMessageHeader(msg);
+        if (c.relabel == 1)
+        {
+            ptByte = static_cast<uint8_t>((ptByte ^ 0x40) ? (ptByte ^ 0x40) : 0x41);
+            p.getPayload().setRawPayloadType(ptByte);
+        }
+        else
+        {
+            mt = mt == wire::kMtData ? wire::kMtVendor : wire::kMtData;
+            p.getPayload().setMessageType(static_cast<lib::CmpHeader::MessageType>(mt));
+            if (mt == wire::kMtData)
+                p.setInterfaceId(c.packet.ifId);
+            else
+                p.setVendorId(c.packet.vendorId);
+        }
+        info.tag("payload_type_changed_in_place_inside_the_packet");
+    }
     memset(cmp, 0xEE, sizeof(cmp));
     memset(msg, 0xEE, sizeof(msg));
     p.getRawCmpHeader(cmp);
     p.getRawMessageHeader(msg);
-    uint8_t mt = c.packet.messageType();
     Bytes eCmp;
     wire::CmpHdr h{c.version, 0, c.dev, mt, c.stream, c.seq};
     wire::putCmpHdr(eCmp, h);
@@ -288,7 +313,7 @@ static Verdict runPacketHeaders(const Case& c, Info& info)
     else
         mh.idWord = 0;
     mh.flags = c.packet.flags;
-    mh.payloadType = c.packet.payloadTypeByte();
+    mh.payloadType = ptByte;
     mh.length = static_cast<uint16_t>(p.getPayload().getLength());
     Bytes eMsg;
     wire::putMsgHdr(eMsg, mh);
@@ -558,6 +583,7 @@ static rc::Gen<Case> genCase(int tier)
             c.packet.ifId = *anyInt<uint32_t>();
             c.packet.vendorId = *anyInt<uint16_t>();
             c.packet.flags = *anyInt<uint8_t>();
+            c.relabel = *rc::gen::weightedElement<uint8_t>({{2, 0}, {1, 1}, {1, 2}});
             c.packet.viaApi = *range<uint8_t>(0, 1);
             c.version = *anyInt<uint8_t>();
             c.dev = *anyInt<uint16_t>();
